@@ -83,3 +83,4 @@ LEVEL_NOTE = ("Trusted: Lean kernel; axioms propext/Classical.choice/Quot.sound 
               "functions from the current source on every run (tools/rust2lean_sm.py) and proved equal to the model's for all states and updates "
               "(kernels_agree_with_source), so a change of such a function breaks a proof obligation directly; the translator's reading of its Rust subset "
               "(u64 as unbounded Nat) is trusted for that tie.")
+SUBCHECKS = ["C06E"]
